@@ -165,6 +165,12 @@ class IQueue(object):
             self.s.yield_("get", pred=lambda: len(self.d) > 0)
             item = self.d.popleft()
             self.s.note(5, self.rig.sid(item))
+            # scheduling point right AFTER the dequeue returned, outside the flush lock: the handshake worker sits
+            # here (and in consonance's opaque handshake code that follows) between taking the server hello and
+            # the finish / state change; the network thread can deliver a disconnect / the next frames there.
+            # (Under the flush lock the others can only put / test / block: no new behaviour, see Top.receive.)
+            if getattr(self.rig.noise._flush_lock, "owner", None) != self.s.me():
+                self.s.yield_("got")
             return item
         if not self.d:
             self.s.anomalies.append("stream queue empty at get: a thread would block inside the segmented stream")
@@ -244,7 +250,8 @@ class ILock(object):
 
 PST = {"init": 0, "handshake": 1, "transport": 2, "error": 3}
 
-LINE_ROOTS = ("_flush_incoming_buffer", "receive", "_on_protocol_state_changed", "on_handshake_finished")
+LINE_ROOTS = ("_flush_incoming_buffer", "receive", "_on_protocol_state_changed", "on_handshake_finished",
+              "_handle_stream_event", "on_disconnected")
 
 
 def noise_layer_codes(roots=LINE_ROOTS):
@@ -269,7 +276,13 @@ def noise_layer_codes(roots=LINE_ROOTS):
         seen.append(n)
         todo.extend(x for x in funcs[n].co_names if x in funcs and x not in seen)
         todo.extend(x.co_name for x in funcs[n].co_consts if hasattr(x, "co_name"))
-    return [funcs[n] for n in seen]
+    out = [funcs[n] for n in seen]
+    # the handshake worker's run(): the steps around consonance's (opaque) handshake call
+    from yowsup.layers.noise.workers.handshake import WANoiseProtocolHandshakeWorker as W
+    run = getattr(W.run, "__code__", None)
+    if run is not None:
+        out.append(run)
+    return out
 
 
 class LineYields(object):
@@ -411,6 +424,10 @@ class Rig(object):
             self.sched.note(code, arg)
 
     def sid(self, item):
+        # 997: bytes the rig did not produce; 996: something that is not a segment at all (e.g. a sentinel
+        # object the code itself queued) - neither is a server segment
+        if not isinstance(item, (bytes, bytearray, memoryview)):
+            return 996
         return self.sids.get(bytes(item), 997)
 
     def rs_code(self, pk):
@@ -504,7 +521,9 @@ class Rig(object):
         mach.after_state_change.insert(0, lambda: sched.note(3, PST.get(mach.state, 9)))
 
         def at_yield(op):
-            if op != "streamget" and (len(st._readqueue) or len(st._writequeue)):
+            # (line-level points and the pre-transition point are not model steps: inside _handle_stream_event the
+            #  stream legitimately holds the segment it is handing over)
+            if op not in ("streamget", "line", "st") and (len(st._readqueue) or len(st._writequeue)):
                 sched.anomalies.append("segmented-stream queue not empty at scheduling point %r" % op)
         sched.at_yield = at_yield
 
@@ -542,6 +561,8 @@ def run_scheduled(scratch, name, scn, choose, rng):
     chunk_log = []
     cut_live = []          # per disconnect event: was a handshake worker of an earlier attempt still alive?
     logins = []            # per auth event: the configuration in force when it was emitted
+    auth_state = []        # per auth event: earlier workers still alive? server segments still queued?
+    cur = {"att": -1}
 
     def workers_alive():
         return any(t["state"] not in ("done", "crashed") for tid, t in sched.thr.items() if tid != 0)
@@ -566,7 +587,14 @@ def run_scheduled(scratch, name, scn, choose, rng):
         # idle_from: script items from this index on arrive only when every handshake worker has ended (a frame
         # the server sends much later; used to tell a frame that is lost from one that is merely late)
         q = scn.get("idle_from")
-        return q is not None and i >= q and workers_alive()
+        if q is not None and i >= q and workers_alive():
+            return True
+        # cut_after_dequeue: a disconnect event is delivered only once a handshake worker has dequeued the server
+        # hello of the current connection (the attempt is cut off AFTER the server answered, while the worker sits
+        # between the dequeue and finish / the state change - or later)
+        if scn.get("cut_after_dequeue") and script[i][0] == "disc":
+            return not any(t != 0 and c == 5 and v == 101 + cur["att"] for t, c, v in sched.log)
+        return False
 
     def nt_body():
         buf = bytearray()
@@ -575,6 +603,9 @@ def run_scheduled(scratch, name, scn, choose, rng):
             sched.yield_("event", pred=lambda i=i: available(i) and not gated(i))
             if it[0] == "auth":
                 att += 1
+                cur["att"] = att
+                auth_state.append({"workers_alive": workers_alive(),
+                                   "queued": [rig.sid(x) for x in rig.noise._incoming_segments_queue.d]})
                 if len(it) > 1 and it[1]:
                     rig.apply_login(it[1])
                 logins.append({"configured": rig.expected_presented(), "srv": rig.srv, "corrupt": rig.corrupt})
@@ -651,6 +682,9 @@ def run_scheduled(scratch, name, scn, choose, rng):
 
     threading.Thread.start = patched_start
     lines = LineYields(sched) if scn.get("line_level") else None
+    if lines is not None:
+        # ... and a point BEFORE every transition of the protocol state machine (finish / reset / start / fail)
+        rig.noise._wa_noiseprotocol._machine.before_state_change.insert(0, lambda: sched.yield_("st"))
     try:
         if lines is not None:
             lines.__enter__()
@@ -673,7 +707,9 @@ def run_scheduled(scratch, name, scn, choose, rng):
         "inq_left": inq_left, "lock_owner": lock_owner,
         "written": bytes(rig.written), "disk_rs": rig.disk_rs(), "chunks": chunk_log,
         "logins": logins,
+        "auth_state": auth_state,
         "resp": [{"variant": r.variant, "errors": r.errors, "units": [k for k, _ in r.units], "srv": getattr(r, "srv", 1),
+                  "established": r.can_send(),
                   "presented": NZ.presented(r.client_payload) if r.client_payload is not None else None,
                   "received": r.received} for r in rig.resps],
         "expected_prologue": rig.expected_prologue(), "expected_presented": rig.expected_presented(),
